@@ -196,7 +196,7 @@ pub fn run_grdr(line: &str) -> Obs {
                 None => break,
                 Some((iov, range)) => {
                     obs.push(vec![1, range.start as i128, range.end as i128]);
-                    let ok = w.observe_one(iov, &mut obs);
+                    let ok = w.observe_one_opt(iov, &mut obs, true);
                     obs.push(w.globals(ok));
                 }
             }
